@@ -9,4 +9,4 @@ PARTIAL = ['C01_join_triangle_pixels_draw carries the computable hypothesis jt_f
            'oracle on every generated triangle (suite join_tri_fused under C07_join.py, never false) and searched on the implementation by p_thick_join '
            '(pixels() vs draw() pixel maps), but not proved unreachable']
 ASSUMPTIONS = ['C01_join_*_pixels_draw: vertices and corners of the thick segments within +-2^29; input-only forms (_range) for vertices within +-V, '
-               'V + 6*width + 8 <= 1280']
+               'V + 6*width + 8 <= 8191']
